@@ -435,6 +435,7 @@ func (g *Gen) externalWrites(fn *ssa.Function, ws *WriteSet) {
 		ws.Names[sbHeap(g)] = true
 	case "(*encoding/xml.Decoder).Token", "encoding/xml.NewDecoder":
 		ws.Names[xmlRemHeap(g)] = true
+		ws.Names[xmlPosHeap(g)] = true
 	case "(*encoding/xml.Encoder).Encode", "(*encoding/xml.Encoder).EncodeElement":
 		n, seq := encHeaps(g)
 		ws.Names[n] = true
